@@ -13,7 +13,7 @@ if [ -n "$(git status --porcelain)" ]; then echo "try_benign: $REPO not clean" >
 git apply "$P" || { echo "try_benign: patch does not apply"; exit 2; }
 trap 'git -C "$REPO" checkout -- . ; git -C "$REPO" clean -fdq' EXIT
 go build ./... >/dev/null 2>&1 || { echo "BENIGN $(basename $(dirname $P)): DOES-NOT-BUILD"; exit 0; }
-T=$(go test -vet=off -count=1 ./... 2>&1 | grep -c "^FAIL")
+if [ -n "${TRY_SKIP_SUITE:-}" ]; then T=skipped; else T=$(go test -vet=off -count=1 ./... 2>&1 | grep -c "^FAIL"); fi
 echo "BENIGN $(basename $(dirname $P)): suite_fail_pkgs=$T"
 for PROP in $PROPS; do
   OUT=$(VERIF_REPO="$REPO" VERIF_EVIDENCE_DIR=/tmp/mutant-evidence "$VERIF/bin/check" $PROP --tier quick 2>&1)
